@@ -142,7 +142,7 @@ def default_inputs(run, rng, focus):
                 mk = lambda order: "<r>" + "".join('<c k="%d">t%d</c>' % (i, i) for i in order) + "</r>"
                 inputs.append((mk(ks), mk(ks2), {'uniqueattrs': ['k']}))
     # labelled stream of inputs that fall under recorded (open) known findings
-    if focus in ("C01", "C04"):
+    if focus in ("C01", "C04", "C05"):
         for a, b in KNOWN_STREAM:
             inputs.append((a, b, {}))
     # exhaustive small scope
@@ -182,6 +182,12 @@ def nonroot_ns(root):
     return any(set(e.nsmap.values()) - top for e in root.iter() if isinstance(e.tag, str))
 
 
+def two_prefixes_one_uri(root):
+    """the root element binds two prefixes (the default namespace counts) to the same namespace URI"""
+    vals = list(root.nsmap.values())
+    return len(vals) != len(set(vals))
+
+
 def finding_key(desc, prop, msg):
     """Machine-checkable classification of the failing INPUT, used to match known findings."""
     try:
@@ -193,6 +199,8 @@ def finding_key(desc, prop, msg):
         import re
         if any(k is not None and re.match(r"ns\d+", k, flags=re.ASCII) for k in list(L.nsmap) + list(R.nsmap)):
             return "reserved-ns-prefix-on-root"
+        if two_prefixes_one_uri(L):
+            return "two-prefixes-one-uri-on-left-root"
     except Exception:  # noqa
         pass
     return None
@@ -205,6 +213,13 @@ KNOWN_STREAM = [
     ('<a><b/></a>', '<a><b/><p:c xmlns:p="urn:x"><p:d/></p:c></a>'),
     ('<a><c/></a>', '<a><c><z:k xmlns:z="urn:z"/><z:k xmlns:z="urn:z"><z:m xmlns:z="urn:z"/></z:k></c></a>'),
     ('<root><a/></root>', '<root xmlns:ns1="urn:x"><a/><ns1:b><ns1:c/></ns1:b></root>'),
+    # the left root binds two prefixes to one URI: libxml2's getpath names and counts siblings by prefix, XPath by URI
+    ('<r xmlns:p="u" xmlns:q="u"><q:x/></r>', '<r xmlns:p="u" xmlns:q="u"><q:x a="1"><q:y/></q:x></r>'),
+    ('<r xmlns:p="u" xmlns:q="u"><p:x/><q:x/></r>', '<r xmlns:p="u" xmlns:q="u"><p:x/><q:x a="1"/></r>'),
+    ('<r xmlns="u" xmlns:q="u"><x/><q:x/></r>', '<r xmlns="u" xmlns:q="u"><x/><q:x a="1"/></r>'),
+    ('<r xmlns:p="u" xmlns:q="u"><p:x/><q:x>t</q:x></r>', '<r xmlns:p="u"><p:x/><p:x>t2</p:x></r>'),
+    # only the RIGHT root does: must work
+    ('<r xmlns:p="u"><p:x/></r>', '<r xmlns:p="u" xmlns:q="u"><p:x a="1"/><q:x><q:z/></q:x></r>'),
 ]
 
 
